@@ -85,6 +85,14 @@ struct Dumper
         auto k = e.get_kind();
         os << "(" << vh::kindName(k);
         if (k == IDENTIFIER) os << " #" << id(e.get_symbol());
+        if (k == DOT && e.get_size() == 1 && !e[0].empty() && e[0].get_type().is_process()) {
+            // member of a process (queries: `P.x`, `P.f()`): the symbol of the template it denotes
+            symbol_t ps = e[0].get_symbol();
+            if (!(ps == symbol_t()) && ps.get_data()) {
+                auto* inst = static_cast<instance_t*>(ps.get_data());
+                if (inst->templ && (uint32_t)e.get_index() < inst->templ->frame.get_size()) os << " #" << id(inst->templ->frame[e.get_index()]);
+            }
+        }
         if ((k == FORALL || k == EXISTS || k == SUM) && e.get_size() > 0 && e[0].get_kind() == IDENTIFIER) mark(e[0].get_symbol(), "binder");
         for (size_t i = 0; i < e.get_size(); ++i) os << " " << ex(e[i]);
         os << ")";
